@@ -90,32 +90,24 @@ func factsC02(r *Repo) []Fact {
 	return out
 }
 
-// ---- translated code (gotrans): compose/dag.go ----
+// ---- translated code (gotrans): see trans_channels.go ----
 
 func init() { c02Trans = transC02 }
 
 func transC02(r *Repo) []Fact {
-	u := newTransUnit(r, "compose", "C02")
-	u.declareEnum("dependencyState", "Dep", []string{"Dep.waiting", "Dep.ready", "Dep.skipped"})
-	u.absentTypes["streamReader"] = true
-	u.externs["ch.zeroValue"] = externSig{lean: "ext.zeroValue", results: []*gty{tyAny}}
-	u.externs["ch.emptyStream"] = externSig{lean: "ext.emptyStream", results: []*gty{tyAny}}
-	u.externs["mergeValues"] = externSig{lean: "ext.mergeValues", results: []*gty{tyAny, tyErr}}
-	u.declareStruct("dagChannel", map[string]bool{"zeroValue": true, "emptyStream": true})
-	names := []string{"reportValues", "reportDependencies", "reportSkip", "get"}
+	dag, _, mgr := transChannels(r)
 	var out []Fact
-	all := true
-	for _, n := range names {
-		ok := u.transFunc("dagChannel", n, "dagChannel_"+n)
-		all = all && ok
+	ok := len(dag.errs) == 0
+	for _, n := range []string{"reportValues", "reportDependencies", "reportSkip", "get"} {
+		if dag.methods["dagChannel."+n] == nil {
+			ok = false
+		}
 	}
-	if leanOutDir != "" {
-		writeIfChanged(leanOutDir+"/TransC02.lean", u.render())
-	}
-	if all && len(u.errs) == 0 {
+	if ok {
 		out = append(out, boolFact("dagChannelTranslated", true, "compose/dag.go: dagChannel.{reportValues,reportDependencies,reportSkip,get} translated to Gen/TransC02.lean"))
 	} else {
-		out = append(out, unknownFact("dagChannelTranslated", "Bool", "false", "compose/dag.go", "not in the translated subset: "+strings.Join(u.errs, "; ")))
+		out = append(out, unknownFact("dagChannelTranslated", "Bool", "false", "compose/dag.go", "not in the translated subset: "+strings.Join(dag.errs, "; ")))
 	}
+	out = append(out, mgrFact(mgr))
 	return out
 }
